@@ -144,6 +144,32 @@ def handleA (payload : String) : String :=
     s!"hard={hard} score={scoreOfL I a} room={room}"
   | _ => "bad"
 
+/-! ## B: the model's own whole-search result (maximum over the feasible nodes of the model's
+    full, unpruned tree). Used to tell the known incompleteness of the algorithm (the unchanged
+    code and the model agree on a sub-optimal answer) from a new defect. -/
+open N2 in
+partial def modelBestGo (I : Inst) (R : RoomFns) (limit : Nat) (work : List Node) (best : Option Nat) (cnt : Nat) :
+    Option Nat × Nat × Bool :=
+  match work with
+  | [] => (best, cnt, true)
+  | nd :: rest =>
+    if cnt ≥ limit then (best, cnt, false) else
+    match runNodeS I R nd with
+    | .ok (.feasible _ s) =>
+      modelBestGo I R limit rest (match best with | none => some s | some b => some (max b s)) (cnt + 1)
+    | .ok (.infeasible kids _) => modelBestGo I R limit (kids ++ rest) best (cnt + 1)
+    | _ => modelBestGo I R limit rest best (cnt + 1)
+
+open N2 in
+def handleB (payload : String) : String :=
+  match payload.splitOn "#" with
+  | [cs, ps, rooms] =>
+    let (I, R) := parseInst cs ps rooms
+    let (best, _, complete) := modelBestGo I R 5000 [⟨[], [], []⟩] none 0
+    let b := match best with | none => "none" | some s => toString s
+    s!"best={b} complete={complete}"
+  | _ => "bad"
+
 /-! ## S: k-selection iterator and binom -/
 
 /-- `S n k` → `binom;hint0;sel1/hint1;sel2/hint2;…` following the iterator protocol: the hint
@@ -338,6 +364,7 @@ def dispatch (line : String) : String :=
     | "HS" => handleHS payload
     | "N" => handleN payload
     | "A" => handleA payload
+    | "B" => handleB payload
     | "S" => handleS payload
     | "T" => TR.handle payload
     | _ => "bad tag"
